@@ -10,6 +10,7 @@ mod sink;
 mod texec;
 mod util;
 mod wexec;
+mod xexec;
 
 fn main() {
     let args: Vec<String> = std::env::args().collect();
@@ -26,6 +27,7 @@ fn main() {
         "cexec" => cexec::main_cexec(rest),
         "fexec" => fexec::main_fexec(rest),
         "texec" => texec::main_texec(rest),
+        "xexec" => xexec::main_xexec(rest),
         "lex" => {
             let b = std::fs::read(&rest[0]).expect("read");
             let o = lexer::LexOpts { allow_trailing: true, ..Default::default() };
